@@ -113,8 +113,10 @@ def selftest(ctx):
     a["json"]["check"]["offending"] = a["json"]["check"]["offending"][1:]
     a["id"] = "mut-verdict"
     b = copy.deepcopy(e)
-    al = next(x for f in b["json"]["gen"]["files"] for x in f["aliases"] if x["t"]["k"] == "obj" and not x["name"].startswith("__") and not x.get("base", "").startswith("__"))
-    al["t"]["fs"] = al["t"]["fs"][1:]
+    al = next(x for f in b["json"]["gen"]["files"] for x in f["aliases"] if x["t"]["k"] == "obj" and not x["name"].startswith("__") and not x.get("base", "").startswith("__")
+              and any(not q["key"].startswith("__") for q in x["t"]["fs"]))
+    drop = next(i for i, q in enumerate(al["t"]["fs"]) if not q["key"].startswith("__"))          # (members keyed by a meta type are outside the comparison)
+    al["t"]["fs"] = al["t"]["fs"][:drop] + al["t"]["fs"][drop + 1:]
     b["id"] = "mut-alias"
     o = vlib.validate_trace("Trace_C15", "Trace_C15.cfg", [a, b], workdir=ctx.work, nshards=1)
     got = {(i["id"], i["cls"]) for i in o.items}
